@@ -197,7 +197,7 @@ Lemma tc_issuance_rangeproofs_eq t sp : tc_issuance_rangeproofs (TC t sp) = sha_
 Proof. unfold sha_issuance_rangeproofs. cbn. now rewrite flat_map_concat_map. Qed.
 Lemma cc_outputs_eq t : cc_outputs (CC t) = sha_outputs pt_ok H t.
 Proof. unfold sha_outputs. cbn. now rewrite flat_map_concat_map. Qed.
-Lemma tc_output_witnesses_eq t sp : tc_output_witnesses (TC t sp) = sha_output_witnesses H t.
+Lemma cc_output_witnesses_eq t : cc_output_witnesses (CC t) = sha_output_witnesses H t.
 Proof. unfold sha_output_witnesses. cbn. now rewrite flat_map_concat_map. Qed.
 
 Lemma annex_opt_valid a : annex_valid a = true -> annex_opt a = SOk a.
@@ -220,7 +220,7 @@ Proof. unfold spec_taproot_msg, taproot_encode. intros S Hidx.
   all: try (destruct (nth_error (tx_out t) idx) as [o|] eqn:No; [|discriminate S]; cbn [option_map opt_ok] in S |- *; ev).
   all: apply Some_inj in S; subst m.
   all: rewrite ?tc_outpoint_flags_eq, ?cc_prevouts_eq, ?tc_asset_amounts_eq, ?tc_script_pubkeys_eq, ?cc_sequences_eq, ?cc_issuances_eq,
-         ?tc_issuance_rangeproofs_eq, ?cc_outputs_eq, ?tc_output_witnesses_eq, ?nat_u32_small by assumption.
+         ?tc_issuance_rangeproofs_eq, ?cc_outputs_eq, ?cc_output_witnesses_eq, ?nat_u32_small by assumption.
   all: rewrite ?has_issuance_null; try destruct (issuance_null me); cbn [negb]; ev.
   all: apply Ev_ret_eq; rewrite ?outpoint_flag_eq; destruct leaf as [[h pos]|], annex as [a|]; rewrite <- ?app_assoc, ?app_nil_l, ?app_nil_r; reflexivity.
 Qed.
@@ -427,6 +427,18 @@ Lemma mapM_init_panic {A B} (f : A -> B) (m : M A) t : snd (m (init t)) = SPanic
 Proof. unfold mapM, bind, ret. destruct (m (init t)) as [s [a|e|]]; cbn; intros E; inversion E; reflexivity. Qed.
 
 (* legacy *)
+Lemma legacy_digest_nobug t idx sc ty : legacy_single_bug t idx (ecdsa_u32 ty) = false ->
+  snd (legacy_sighash pt_ok maxvec H idx sc ty (init t)) = snd (mapM (fun m => H (H m)) (legacy_encode pt_ok maxvec idx sc ty) (init t)).
+Proof. unfold legacy_single_bug, legacy_sighash. rewrite bind_get_tx. cbn [init st_tx]. rewrite ecdsa_split_eq.
+  destruct ty; cbv beta iota; eval_closed; cbn [andb]; try reflexivity; intros ->; rewrite andb_false_r; reflexivity. Qed.
+Lemma legacy_digest_oob t idx sc ty : (length (tx_in t) <= idx)%nat ->
+  snd (legacy_sighash pt_ok maxvec H idx sc ty (init t)) = snd (mapM (fun m => H (H m)) (legacy_encode pt_ok maxvec idx sc ty) (init t)).
+Proof. intros Ge. apply Nat.ltb_ge in Ge. unfold legacy_sighash. rewrite bind_get_tx. cbn [init st_tx]. destruct (ecdsa_split ty). rewrite Ge, andb_false_r. reflexivity. Qed.
+Lemma legacy_digest_bug t idx sc ty : (idx < length (tx_in t))%nat -> legacy_single_bug t idx (ecdsa_u32 ty) = true ->
+  snd (legacy_sighash pt_ok maxvec H idx sc ty (init t)) = SOk uint256_one.
+Proof. intros Lt. apply Nat.ltb_lt in Lt. unfold legacy_single_bug, legacy_sighash. rewrite bind_get_tx. cbn [init st_tx]. rewrite ecdsa_split_eq, Lt.
+  destruct ty; cbv beta iota; eval_closed; cbn [andb]; try discriminate; intros ->; reflexivity. Qed.
+
 Theorem pack_legacy t idx sc ty : (idx < length (tx_in t))%nat -> legacy_single_bug t idx (ecdsa_u32 ty) = false ->
   exists m, spec_legacy_msg pt_ok true t idx sc (ecdsa_u32 ty) = Some m /\
             impl_msg t (OLegacy idx sc ty) = SOk m /\ impl_digest t (OLegacy idx sc ty) = SOk (H (H m)) /\
@@ -435,7 +447,7 @@ Proof. intros Lt Bug. destruct (nth_error (tx_in t) idx) as [me|] eqn:Nth; [|app
   destruct (spec_legacy_msg pt_ok true t idx sc (ecdsa_u32 ty)) as [m|] eqn:S.
   2:{ unfold spec_legacy_msg in S. rewrite Nth, Bug in S. discriminate. }
   exists m. pose proof (legacy_refines pt_ok maxvec t idx sc ty m S) as R. split; [reflexivity|]. split; [exact R|]. split.
-  - unfold SighashQuery.impl_digest, query, legacy_sighash. apply (mapM_init (fun x => H (H x))). exact R.
+  - unfold SighashQuery.impl_digest, query. rewrite (legacy_digest_nobug t idx sc ty Bug). apply (mapM_init (fun x => H (H x))). exact R.
   - unfold spec_legacy_digest. rewrite Nth, Bug, S. reflexivity. Qed.
 Theorem legacy_oob_panics t idx sc ty : (length (tx_in t) <= idx)%nat ->
   impl_msg t (OLegacy idx sc ty) = SPanic /\ impl_digest t (OLegacy idx sc ty) = SPanic /\ spec_legacy_digest pt_ok H true t idx sc (ecdsa_u32 ty) = None.
@@ -443,20 +455,27 @@ Proof. intros Ge. assert (P : SighashQuery.impl_msg pt_ok maxvec H t (OLegacy id
   { unfold SighashQuery.impl_msg, preimage, legacy_encode, bind, get_tx, lift, init; cbn [st_tx snd]. unfold legacy_encode_tx.
     apply Nat.ltb_ge in Ge. now rewrite Ge. }
   split; [exact P|]. split.
-  - unfold SighashQuery.impl_digest, query, legacy_sighash. apply mapM_init_panic. exact P.
+  - unfold SighashQuery.impl_digest, query. rewrite (legacy_digest_oob t idx sc ty Ge). apply mapM_init_panic. exact P.
   - unfold spec_legacy_digest. apply nth_error_None in Ge. now rewrite Ge. Qed.
-(* the SIGHASH_SINGLE out-of-range rule (finding F17): the library hashes the constant, consensus signs the constant *)
+(* the SIGHASH_SINGLE out-of-range rule: the writer emits the constant, and the digest IS the constant, as in consensus *)
 Theorem legacy_single_bug_digests t idx sc ty : (idx < length (tx_in t))%nat -> legacy_single_bug t idx (ecdsa_u32 ty) = true ->
-  impl_msg t (OLegacy idx sc ty) = SOk uint256_one /\ impl_digest t (OLegacy idx sc ty) = SOk (H (H uint256_one)) /\
-  spec_legacy_digest pt_ok H true t idx sc (ecdsa_u32 ty) = Some uint256_one.
+  impl_msg t (OLegacy idx sc ty) = SOk uint256_one /\ impl_digest t (OLegacy idx sc ty) = SOk uint256_one /\
+  spec_legacy_digest pt_ok H true t idx sc (ecdsa_u32 ty) = Some uint256_one /\ spec_legacy_msg pt_ok true t idx sc (ecdsa_u32 ty) = None.
 Proof. intros Lt Bug. destruct (nth_error (tx_in t) idx) as [me|] eqn:Nth; [|apply nth_error_None in Nth; lia].
   assert (P : SighashQuery.impl_msg pt_ok maxvec H t (OLegacy idx sc ty) = SOk uint256_one).
   { unfold SighashQuery.impl_msg, preimage, legacy_encode, bind, get_tx, lift, init; cbn [st_tx snd]. unfold legacy_encode_tx.
-    apply Nat.ltb_lt in Lt. rewrite Lt. cbn [negb]. rewrite ecdsa_split_eq. unfold legacy_single_bug in Bug. revert Bug.
+    pose proof Lt as Lt'. apply Nat.ltb_lt in Lt'. rewrite Lt'. cbn [negb]. rewrite ecdsa_split_eq. unfold legacy_single_bug in Bug. revert Bug.
     destruct ty; cbv beta iota; eval_closed; cbn [andb]; try discriminate; intros ->; reflexivity. }
-  split; [exact P|]. split.
-  - unfold SighashQuery.impl_digest, query, legacy_sighash. apply (mapM_init (fun x => H (H x))). exact P.
-  - unfold spec_legacy_digest. now rewrite Nth, Bug. Qed.
+  split; [exact P|]. split; [|split].
+  - unfold SighashQuery.impl_digest, query. apply legacy_digest_bug; assumption.
+  - unfold spec_legacy_digest. now rewrite Nth, Bug.
+  - unfold spec_legacy_msg. now rewrite Nth, Bug. Qed.
+(* digest-level refinement on the whole consensus domain *)
+Theorem legacy_digest_refines t idx sc ty : (idx < length (tx_in t))%nat ->
+  exists d, impl_digest t (OLegacy idx sc ty) = SOk d /\ spec_legacy_digest pt_ok H true t idx sc (ecdsa_u32 ty) = Some d.
+Proof. intros Lt. destruct (legacy_single_bug t idx (ecdsa_u32 ty)) eqn:Bug.
+  - destruct (legacy_single_bug_digests t idx sc ty Lt Bug) as (_ & D & S & _). eauto.
+  - destruct (pack_legacy t idx sc ty Lt Bug) as (m & _ & _ & D & S). eauto. Qed.
 
 (* segwit v0 *)
 Theorem pack_segwit t idx sc v ty : (idx < length (tx_in t))%nat ->
@@ -510,15 +529,15 @@ Lemma key_spend_eq t idx pv ty g : impl_digest t (OTapKey idx pv ty g) = impl_di
 Proof. reflexivity. Qed.
 Lemma script_spend_eq t idx pv lh ty g : impl_digest t (OTapScript idx pv lh ty g) = impl_digest t (OTaproot idx pv None (Some (lh, 4294967295)) ty g).
 Proof. reflexivity. Qed.
-(* Prevouts::One for ANYONECANPAY types outside the class of finding F11 *)
+(* Prevouts::One for every ANYONECANPAY type *)
 Theorem pack_taproot_one t spent idx o annex leaf ty g :
-  schnorr_acp ty = true -> F11_known ty = false -> length spent = length (tx_in t) -> nth_error spent idx = Some o ->
+  schnorr_acp ty = true -> length spent = length (tx_in t) -> nth_error spent idx = Some o ->
   impl_msg t (OTaproot idx (POne idx o) annex leaf ty g) = impl_msg t (OTaproot idx (PAll spent) annex leaf ty g) /\
   impl_digest t (OTaproot idx (POne idx o) annex leaf ty g) = impl_digest t (OTaproot idx (PAll spent) annex leaf ty g).
-Proof. intros A K L N. unfold SighashQuery.impl_msg, SighashQuery.impl_digest, preimage, query.
+Proof. intros A L N. unfold SighashQuery.impl_msg, SighashQuery.impl_digest, preimage, query.
   destruct (annex_opt annex) as [a'| |]; try (split; reflexivity).
   change (bind (lift (SOk a')) ?k (init t)) with (k a' (init t)). unfold taproot_sighash, mapM, bind.
-  rewrite (acp_one_eq_all pt_ok maxvec H (init t) spent idx o a' leaf ty g A K L N). split; reflexivity. Qed.
+  rewrite (acp_one_eq_all pt_ok maxvec H (init t) spent idx o a' leaf ty g A L N). split; reflexivity. Qed.
 End PACK.
 
 (* =========================================== sensitivity to committed fields (partial) =========================================== *)
